@@ -5,7 +5,7 @@ from suites.common import api_consistency, exc_result, reflect, rstr, LOWER
 from suites.ops_images import valid_compose
 
 EXC = (ValueError, TypeError, AttributeError, KeyError, IndexError)
-ARCHES = ["x86_64", "ppc64le", "aarch64", "s390x", "armhfp", "i386"]
+ARCHES = ["x86_64", "ppc64le", "aarch64", "s390x", "armhfp", "i386", "e2k", "hppa", "sw_64"]      # the last three: not in RPM_ARCHES
 FRESH_REL = {"name": None, "version": None, "short": None, "type": None, "is_layered": True, "internal": False}
 FRESH_BP = {"name": None, "version": None, "short": None, "type": None}
 
@@ -51,7 +51,7 @@ def gen_ci(rng, R=None):
     bp = {"name": "Base", "version": rng.choice(["7", "22"]), "short": rng.choice(["RHEL", "f"]), "type": rng.choice(R["RELEASE_TYPES"])} \
         if (rel["is_layered"] or rng.random() < 0.2) else dict(FRESH_BP)
     tops = {}
-    for t in rng.sample(["Server", "Client", "Workstation", "AppStream", "HA", "SAP"], rng.randint(1, 3)):      # ids are unique among siblings only
+    for t in rng.sample(["Server", "Client", "Workstation", "AppStream", "HA", "SAP"], rng.choice([0, 1, 1, 2, 2, 3, 3])):      # ids are unique among siblings only
         arches = sorted(rng.sample(ARCHES, rng.randint(1, 3)))
         tops[t] = gen_tree(rng, R, t, t, arches, 1, top=True)
     free = [t for t in tops if "optional" not in tops[t][3]]
